@@ -196,6 +196,7 @@ def sel_job(j):
                 L.write(d, f, L.gen(d + f, 1500))
         L.symlink("d1", "lnk", "a")
         L.symlink("d2", "dir/lnk2", "../a")
+        L.symlink("d2", "dangling", "nowhere")        # recorded dangling; re-pointed (still dangling) before the commands: present, not missing
         L.mkdir("d1", "emptyA")
         L.mkdir("d2", "dir/emptyB")
         L.run("sync")
@@ -214,6 +215,8 @@ def sel_job(j):
         L.rm("d2", "x.t")
         for d_, p_ in (("d1", "lnk"), ("d2", "dir/lnk2"), ("d1", "emptyA"), ("d2", "dir/emptyB")):
             L.rm(d_, p_)
+        L.rm("d2", "dangling")
+        L.symlink("d2", "dangling", "elsewhere")
         c = L.content()
         # and one silently wrong parity block in a stripe none of whose files is missing or marked bad: a selection that leaves
         # the parity out (-f, -m, -d DATADISK) must leave it exactly as it is
